@@ -20,6 +20,7 @@ EXPLANATION = 'see DESIGN.md C19'
 ASSUMPTIONS = ['loc: texts are lexically closed (comments and literals terminated), as in any file the parser accepts']
 
 EXTRA = [
+    'int f(int x,int y){ while (x) g(x); while (y) { g(y); } do g(x); while (x < 1); while (y) x = x + y; }',
     'int f(int x,int y){ L1: while (x < 3) { x = x + 2; } }',
     'int f(int x,int y){ switch (x) { case 1: while (y < 2) { y = y + 1; } break; default: do { y = y * y; } while (y < 9); } }',
     'int f(int x,int y){ while (x < 3) ; do ; while (y < 1); for (;;) { x = x + 1; } }',
@@ -111,7 +112,19 @@ def run(ctx):
             ctx.count('loop_mode_raised_' + type(e).__name__)
             continue
         for fn in fs:
-            loops = [l for l in FindLoops(copy.deepcopy(fn)).loops if pr.is_loop(l)]
+            # "non-empty body": the body is not the empty statement once the unsupported statements are
+            # removed (an unbraced body that is one unsupported statement becomes `;`).  The removal is taken
+            # from the Lean model of Coverage (validated against the implementation by C05/C07), not from pymwp.
+            loops = []
+            for l in FindLoops(copy.deepcopy(fn)).loops:
+                if not pr.is_loop(l):
+                    continue
+                if ctx.drv is not None:
+                    mc = ctx.drv.call('model.coverage', ast=astwire.W(l)).get('ok', {})
+                    if (mc.get('mod') or {}).get('body', {}).get('k') == 'empty':
+                        ctx.count('loops_emptied_by_removal')
+                        continue
+                loops.append(l)
             got = lres.get(fn.decl.name, [])
             if len(got) != len(loops):
                 ctx.violation({'kind': 'loop-results-count'},
